@@ -18,6 +18,10 @@ ALLOWED = [
 ]
 QUERY_ROLES = ("query_pools", "query_pool", "q_token_info", "q_token_balance", "q_balance", "info_to_normal")
 QUERY_STD = re.compile(r"^cosmwasm_std::(\S*::)?QuerierWrapper::query$")
+ARITH = re.compile(r"(bignumber::|<cosmwasm_std::(\S*::)?(Uint128|Uint256|Uint64|Decimal|Decimal256) as (core|std)::ops::(Add|Sub|Mul|Div|Rem|Shl|Shr|AddAssign|SubAssign|MulAssign|DivAssign)"
+                   r"|cosmwasm_std::(\S*::)?(Decimal|Uint128|Uint256|Decimal256)::(from_ratio|multiply_ratio|pow|sqrt|inv|checked_\w+|from_atomics)\b"
+                   r"|impl (core|std)::ops::(Mul|Div)<cosmwasm_std::\S*> for cosmwasm_std::|integer_sqrt)")
+HARMLESS = re.compile(r"(as (core|std)::convert::(From|Into)<(cosmwasm_std::\S*Uint128|u128|u64|u32|u8|bigint::\S*U256)>>::(from|into)$|::(zero|one|is_zero|u128|to_string|fmt|clone|eq|ne|cmp|partial_cmp|lt|le|gt|ge|default)$)")
 PANICKY = re.compile(r"(::option::Option::(unwrap|expect)$|::result::Result::(unwrap|expect|unwrap_err|expect_err)$)")
 
 
@@ -120,6 +124,9 @@ def _run(ctx):
                         ok = name
                 if detail in helper_paths or generic_path(detail) in helper_paths:
                     ok = "path-function"
+                chf = P.fn(detail) or P.fn(generic_path(detail))
+                if chf is not None and common.check_helper(P, chf) is not None:
+                    ok = "check-helper"      # a one-condition `check(..)?`: its condition is judged with the other conditions of the path
                 if re.match(r"^cosmwasm_std::(\S*::)?Uint128::checked_\w+$", detail):
                     ok = None
             elif kind == "explicit-err":
@@ -156,6 +163,22 @@ def _run(ctx):
             continue
         a1.fail("C20.A1:extra-condition:%s" % txt[:120], recv.path, common.span_of_block_term(recv, c["sw"]),
                 "the withdraw arm is additionally conditioned on {%s}: a holder of LP tokens for whom it is false is refused" % txt[:240])
+    # ---- arithmetic on the path that is not part of the refund computation ---------------------------------------
+    # every abort-capable arithmetic call (bignumber operators / constructors, cosmwasm Uint128 / Decimal operators) on the
+    # path must be one the refund translation interpreted — its aborts are then discharged below; anything else (e.g. a
+    # reserve-product "sanity check" in a shared helper) can abort on reserves the holder does not control
+    visited = set(T.visited_calls)
+    for f, blocks, role in fns:
+        for b, p, fr_, t_ in P.calls(f):
+            if blocks is not None and b not in blocks:
+                continue
+            if not p or not ARITH.search(p) or HARMLESS.search(p):
+                continue
+            if (f.path, b) in visited:
+                continue
+            a1n.fail("C20.A1N:unaccounted-arithmetic:%s:%s" % (f.path, common.short_path(generic_path(p))[:60]), f.path, common.span_of_block_term(f, b),
+                     "%s: %s can abort (overflow / zero divisor) and is not part of the refund computation whose bounds are proved: "
+                     "the withdrawal can fail on reserves or supplies the holder does not control" % (role, common.short_path(p)[:120]))
     # ---- numeric aborts -------------------------------------------------------------------------------------------
     for cb, why in wd.problems:
         a1n.fail("C20.A1N:shape", w.path, common.span_of_block_term(w, cb), why)
